@@ -162,7 +162,9 @@ def search(run, corr, deep):
             found += run.report_witness(w)
     corr.distribution["oracle: exhaustive C walks (deltas)"] = len(deltas)
     # 2. python fn2gsm_time vs spec
-    fns = range(0, H) if (run.thorough or deep) else interesting_fns(run, 20000)
+    # the property's quantifier: frame numbers of the hyperframe (what the toolkit does with other integers is compared
+    # with the model in the correspondence, as evidence)
+    fns = range(0, H) if (run.thorough or deep) else [f for f in interesting_fns(run, 20000) if 0 <= f < H]
     preqs = ["gt.py %d" % fn for fn in fns]
     pimpl = vf.run_lines([vf.PY, os.path.join(vf.ROOT, "harness/py/gsmtime_harness.py"), vf.TRX], preqs)
     for fn, a in zip(fns, pimpl):
